@@ -123,7 +123,7 @@ pub fn record(seed: u64, n: usize) -> Vec<J> {
                 // element results are obtained from the real evaluator one scalar operation at a time.
                 // half of the time all elements are numbers (so arithmetic succeeds)
                 let numeric = r.chance(1, 2);
-                let mut el = |r: &mut Rng| if numeric { mv::project_num(rand_double(r), Lift::Id) } else { scalar_model(r) };
+                let el = |r: &mut Rng| if numeric { mv::project_num(rand_double(r), Lift::Id) } else { scalar_model(r) };
                 let shape = *r.pick(&["ls", "sl", "ll"]);
                 let len = r.below(9) as usize;
                 let l: Vec<J> = (0..len).map(|_| el(&mut r)).collect();
